@@ -99,7 +99,7 @@ def shard(ctx):
     for i, e in enumerate(small):
         if i % ctx.nshards == ctx.shard:
             pats.append((e, 'exhaustive'))
-    for _ in range(ctx.scale(24000, 1000000)):
+    for _ in range(ctx.scale(96000, 1000000)):
         e = gp.rand_meta(rng, rng.randint(2, 5), syms=(0,), wf=rng.random() < 0.7, constrained=0.6)
         if tb.size(e) <= 80:
             pats.append((e, 'random'))
@@ -137,7 +137,7 @@ def shard(ctx):
                 break
     # ------------------------------------------------------------------ Python
     P = repo.P()
-    n = ctx.scale(40000, 1500000)
+    n = ctx.scale(160000, 1500000)
     small_py = gp.enum_meta(4 if ctx.quick else 5, evs=(0, 1), svs=(0,), syms=('a',), mvars=MVARS[:2], wf=False)
     cases = [(e, 'exhaustive') for i, e in enumerate(small_py) if i % ctx.nshards == ctx.shard]
     for _ in range(n):
